@@ -22,6 +22,8 @@ type cmdExecution struct {
 }
 
 func (e *cmdExecution) run() ([]byte, error) {
+	verifPoint("exec.start", fmt.Sprintf("%p", e))
+	defer verifPoint("exec.done", fmt.Sprintf("%p", e))
 	cmd := exec.Command(e.cmd, e.args...)
 	cmd.Stderr = nil
 
@@ -91,20 +93,28 @@ func newConcurrentProcess(par int) *concurrentProcess {
 
 func (proc *concurrentProcess) run(eg *errgroup.Group, exec *cmdExecution, callback func([]byte, error) error) {
 	proc.wg.Add(1)
+	verifPoint("proc.run.enter", fmt.Sprintf("%p", exec))
 	eg.Go(func() error {
 		defer proc.wg.Done()
+		defer verifPoint("proc.goroutine.end", fmt.Sprintf("%p", exec))
+		verifPoint("proc.sema.wait", fmt.Sprintf("%p", exec))
 		if err := proc.sema.Acquire(proc.ctx, 1); err != nil {
 			return fmt.Errorf("could not acquire semaphore to run %q: %w", exec.cmd, err)
 		}
+		verifPoint("proc.sema.acquired", fmt.Sprintf("%p", exec))
 		stdout, err := exec.run()
+		verifPoint("proc.sema.release", fmt.Sprintf("%p", exec))
 		proc.sema.Release(1)
+		verifPoint("proc.callback.begin", fmt.Sprintf("%p", exec))
 		return callback(stdout, err)
 	})
 }
 
 // wait waits all goroutines started by this concurrentProcess instance finish.
 func (proc *concurrentProcess) wait() {
+	verifPoint("proc.wait.begin", "")
 	proc.wg.Wait() // Wait for all goroutines completing to shutdown
+	verifPoint("proc.wait.end", "")
 }
 
 // newCommandRunner creates new external command runner for given executable. The executable path
